@@ -341,12 +341,69 @@ class Builder:
                 if it.optional_vars is not None:
                     self.bind(it.optional_vars, ("call", ("attr", v, "__enter__"), (), ()), env, ctx)
             self.run(s.body, env, ctx)
+        elif isinstance(s, ast.Match):
+            self.run([self.desugar_match(s)], env, ctx)
         elif isinstance(s, ast.While):
             raise Unsupported(f"while statement at line {s.lineno}")
         elif isinstance(s, ast.ClassDef):
             env[s.name] = ("localclass", s.name, s.lineno)
         else:
             raise Unsupported(f"statement {type(s).__name__} at line {getattr(s, 'lineno', '?')}")
+
+    def desugar_match(self, s: ast.Match):
+        """`match x: case A(): ... case None: ... case _: ...` as the if / elif chain it abbreviates (class patterns without
+        sub-patterns are isinstance tests, singletons identity tests, values equality tests, `|` a disjunction, guards conjoined;
+        capture patterns bind the subject). Anything richer is unsupported. The chain is built once per Match node."""
+        cached = getattr(s, "_lerax_sa_if", None)
+        if cached is not None:
+            return cached
+        subj = f"__match_{s.lineno}_{s.col_offset}"
+
+        def name():
+            return ast.Name(id=subj, ctx=ast.Load())
+
+        def test_of(p):
+            """(test expression or None when irrefutable, [names bound to the subject])"""
+            if isinstance(p, ast.MatchClass) and not p.patterns and not p.kwd_patterns:
+                return ast.Call(func=ast.Name(id="isinstance", ctx=ast.Load()), args=[name(), p.cls], keywords=[]), []
+            if isinstance(p, ast.MatchSingleton):
+                return ast.Compare(left=name(), ops=[ast.Is()], comparators=[ast.Constant(value=p.value)]), []
+            if isinstance(p, ast.MatchValue):
+                return ast.Compare(left=name(), ops=[ast.Eq()], comparators=[p.value]), []
+            if isinstance(p, ast.MatchAs):
+                if p.pattern is None:
+                    return None, ([p.name] if p.name else [])
+                t, b = test_of(p.pattern)
+                return t, b + ([p.name] if p.name else [])
+            if isinstance(p, ast.MatchOr):
+                parts = [test_of(q) for q in p.patterns]
+                if any(b for _, b in parts):
+                    raise Unsupported(f"match statement with captures in alternatives at line {s.lineno}")
+                if any(t is None for t, _ in parts):
+                    return None, []
+                return ast.BoolOp(op=ast.Or(), values=[t for t, _ in parts]), []
+            raise Unsupported(f"match pattern {type(p).__name__} at line {s.lineno}")
+
+        chain = None
+        for case in reversed(s.cases):
+            t, binds = test_of(case.pattern)
+            body = [ast.Assign(targets=[ast.Name(id=b, ctx=ast.Store())], value=name()) for b in binds] + list(case.body)
+            if case.guard is not None:
+                if binds:
+                    raise Unsupported(f"match guard over a capture at line {s.lineno}")
+                t = case.guard if t is None else ast.BoolOp(op=ast.And(), values=[t, case.guard])
+            if t is None:
+                chain = body  # irrefutable: everything after it is unreachable
+            else:
+                chain = [ast.If(test=t, body=body, orelse=chain or [])]
+        head = ast.Assign(targets=[ast.Name(id=subj, ctx=ast.Store())], value=s.subject)
+        out = ast.If(test=ast.Constant(value=True), body=[head] + (chain or []), orelse=[])
+        for n in ast.walk(out):
+            if not hasattr(n, "lineno"):
+                ast.copy_location(n, s)
+        ast.fix_missing_locations(out)
+        s._lerax_sa_if = out
+        return out
 
     def local_import(self, s, env, ctx):
         m = ctx.module
@@ -384,12 +441,14 @@ class Builder:
         self.bound_depth += 1
         d = self.bound_depth
         sub = dict(env)
-        self.bind(s.target, ("bound", d, 0), sub, ctx)
+        # loop targets are numbered like comprehension targets (structure of zip / enumerate / items elements); carried names from 8 on
+        self.bind_bound(s.target, d, [0], sub, ctx, self.iter_shape(it)) if isinstance(s.target, (ast.Name, ast.Tuple, ast.List)) \
+            else self.bind(s.target, ("bound", d, 0), sub, ctx)
         init = {}
         for i, n in enumerate(assigned):
             if n in env:
                 init[n] = env[n]
-                sub[n] = ("bound", d, i + 1)
+                sub[n] = ("bound", d, i + 8)
         save_eff = len(self.effects)
         try:
             self.run(s.body, sub, ctx)
@@ -401,6 +460,19 @@ class Builder:
         for i, n in enumerate(assigned):
             if n in sub:
                 env[n] = ("loop", it, init.get(n, NONE), sub[n], d)
+        # a local list grown by one `append` per iteration is the list it started as plus the comprehension of the appended values
+        # (`out = []; for a in xs: out.append(f(a))` is `[f(a) for a in xs]`); any other in-place growth stays an opaque loop value
+        for n, before in list(env.items()):
+            after = sub.get(n)
+            if n in assigned or after is before or after == before:
+                continue
+            if isinstance(before, tuple) and before and before[0] == "list" and isinstance(after, tuple) and after and after[0] == "list" \
+                    and len(after[1]) == len(before[1]) + 1 and after[1][:len(before[1])] == before[1] and not s.orelse \
+                    and not any(isinstance(x, tuple) and x and x[0] == "bound" and x[1] == d and x[2] >= 8 for x in walk(after[1][-1])):
+                grown = ("comp", "ListComp", after[1][-1], ((it, ()),), d)
+                env[n] = grown if not before[1] else self.mk_bin("Add", before, grown)
+            else:
+                env[n] = ("loop", it, before, after, d)
         self.effects.append(("loop", ("loop", it, NONE, ("tuple", body_effects), d), s.lineno))
 
     def static_elems(self, it):
@@ -757,7 +829,7 @@ class Builder:
         try:
             for gi, g in enumerate(gens):
                 it = self.ev(g.iter, sub, ctx)
-                self.bind_bound(g.target, d, [gi * 8], sub, ctx)
+                self.bind_bound(g.target, d, [gi * 8], sub, ctx, self.iter_shape(it))
                 conds = tuple(self.ev(c, sub, ctx) for c in g.ifs)
                 gnodes.append((it, conds))
             if isinstance(e, ast.DictComp):
@@ -768,13 +840,35 @@ class Builder:
             self.bound_depth -= 1
         return ("comp", kind, elt, tuple(gnodes), d)
 
-    def bind_bound(self, t, d, counter, env, ctx):
+    @staticmethod
+    def iter_shape(it):
+        """Structure of one element of an iterable as far as the syntax shows it: zip(a, b) yields pairs, enumerate(a) (index, element),
+        d.items() (key, value); anything else an opaque element (None). Bound variables are numbered in the flattened order of this
+        structure, which is the order `rules.util.elementwise` assigns its slots in."""
+        if isinstance(it, tuple) and it and it[0] == "call" and not it[3]:
+            if it[1] == ("global", "zip") and it[2] and not any(isinstance(a, tuple) and a and a[0] == "star" for a in it[2]):
+                return tuple(Builder.iter_shape(a) for a in it[2])
+            if it[1] == ("global", "enumerate") and len(it[2]) == 1:
+                return (None, Builder.iter_shape(it[2][0]))
+            if isinstance(it[1], tuple) and it[1][0] == "attr" and it[1][2] == "items" and not it[2]:
+                return (None, None)
+        return None
+
+    def bind_bound(self, t, d, counter, env, ctx, shape=None):
+        def build(sh):
+            if sh is None:
+                n = ("bound", d, counter[0])
+                counter[0] += 1
+                return n
+            return ("tuple", tuple(build(x) for x in sh))
+
         if isinstance(t, ast.Name):
-            env[t.id] = ("bound", d, counter[0])
-            counter[0] += 1
+            # a single name bound to a structured element (for pair in zip(a, b)) is the tuple of the element's parts
+            env[t.id] = build(shape)
         elif isinstance(t, (ast.Tuple, ast.List)):
-            for x in t.elts:
-                self.bind_bound(x, d, counter, env, ctx)
+            sub = shape if isinstance(shape, tuple) and len(shape) == len(t.elts) and not any(isinstance(x, ast.Starred) for x in t.elts) else None
+            for i, x in enumerate(t.elts):
+                self.bind_bound(x, d, counter, env, ctx, sub[i] if sub is not None else None)
         elif isinstance(t, ast.Starred):
             self.bind_bound(t.value, d, counter, env, ctx)
         else:
@@ -1145,10 +1239,14 @@ class Builder:
             actual = [clo.bound_self] + actual
         # expand star args that are static
         flat = []
-        for x in actual:
+        tail_star = None  # a trailing *xs of unknown length handed on to the callee's own *args
+        for xi, x in enumerate(actual):
             if isinstance(x, tuple) and x and x[0] == "star":
                 el = self.static_elems(x[1])
                 if el is None:
+                    if xi == len(actual) - 1 and a.vararg is not None and len(flat) >= len(pos):
+                        tail_star = x[1]
+                        continue
                     # cannot map positionally: fall back to uninterpreted
                     return ("call", clo, tuple(args), tuple(kwargs))
                 flat.extend(el)
@@ -1157,8 +1255,14 @@ class Builder:
         actual = flat
         kw = {}
         extra_kw = []
+        tail_kw = None  # a **mapping of unknown keys handed on to the callee's own **kwargs
         for k, v in kwargs:
             if k is None:
+                named = {k2 for k2, _ in kwargs if k2 is not None}
+                filled = all(i < len(actual) or p_.arg in named for i, p_ in enumerate(pos)) and all(p_.arg in named for p_ in a.kwonlyargs)
+                if tail_kw is None and a.kwarg is not None and filled:
+                    tail_kw = v
+                    continue
                 return ("call", clo, tuple(args), tuple(kwargs))
             kw[k] = v
         defaults = list(a.defaults)
@@ -1177,7 +1281,10 @@ class Builder:
                     env[p.arg] = ("missing", p.arg)
         rest = actual[len(pos):]
         if a.vararg:
-            env[a.vararg.arg] = ("tuple", tuple(rest))
+            if tail_star is not None:
+                env[a.vararg.arg] = tail_star if not rest else ("tuple", tuple(rest) + (("star", tail_star),))
+            else:
+                env[a.vararg.arg] = ("tuple", tuple(rest))
         elif rest:
             return ("call", clo, tuple(args), tuple(kwargs))
         for p, d in zip(a.kwonlyargs, a.kw_defaults):
@@ -1188,7 +1295,10 @@ class Builder:
             else:
                 env[p.arg] = ("missing", p.arg)
         if a.kwarg:
-            env[a.kwarg.arg] = ("dict", tuple((("const", k), v) for k, v in kw.items()))
+            if tail_kw is not None:
+                env[a.kwarg.arg] = tail_kw if not kw else ("dict", tuple((("const", k), v) for k, v in kw.items()) + ((("const", "**"), tail_kw),))
+            else:
+                env[a.kwarg.arg] = ("dict", tuple((("const", k), v) for k, v in kw.items()))
         elif kw:
             return ("call", clo, tuple(args), tuple(kwargs))
         # types of parameters from annotations (unless the argument's own type is known)
